@@ -39,6 +39,18 @@ def getEntry : Registry → String → Option Entry
   | [], _ => none
   | e :: es, d => if e.denom = d then some e else getEntry es d
 
+/-- what the fact translator reads off the body of `GetEntry` (pass `lookup`): the entry fields the
+    function looks at, how many `return <entry>, …` statements it has, whether one of them is the
+    `return wl.Entries[i], nil` guarded by `e.Denom == denom` inside the range over the entries, and
+    whether falling out of the loop returns `nil, err`.  The model `getEntry` above is the function
+    with facts `⟨["Denom"], 1, true, true⟩`. -/
+structure LookupFacts where
+  fields : List String
+  okReturns : Nat
+  matchReturn : Bool
+  notFoundIsErr : Bool
+  deriving DecidableEq, Repr, Inhabited
+
 /-- `CheckEntryPermissions(entry, required)`: every required permission is listed -/
 def checkPerms (e : Entry) (req : List Perm) : Bool := req.all (fun p => e.perms.contains p)
 
